@@ -1,1 +1,4 @@
-/-! Property theorems for C05 (not built yet). -/
+import Cellml.Expr.Convert
+namespace Cellml.Props.C05
+theorem placeholder : True := trivial
+end Cellml.Props.C05
